@@ -391,6 +391,8 @@ def g_bitmap(ch, pool, ctx, opts, depth):
     """One or more operator blocks sharing a back-reference epoch."""
     out = []
     n_blocks = ch.weighted([(3, 1), (4, 2), (1, 3)])
+    prev_wrapped = None
+    mixed = ch.int(0, 1) if (n_blocks >= 2 and opts.marker_under_ops and ch.bool(1, 3)) else None
     for b in range(n_blocks):
         if ctx.budget < (5 if b == 0 else 3):
             break
@@ -401,6 +403,10 @@ def g_bitmap(ch, pool, ctx, opts, depth):
         ops = [(3, 222), (2, 224), (2, 223), (1, 232)]
         if ctx.epoch_len is None:
             ops.append((1, 225))
+        if mixed is not None and b < 2:
+            # two marker blocks in a row, the markers of exactly one of them under 201/202/207/208: the operator
+            # state a marker sees must be the one in force at that marker
+            ops = [(2, 224), (2, 223), (1, 232)]
         op = ch.weighted(ops)
         blk = []
         if op == 225:
@@ -452,7 +458,8 @@ def g_bitmap(ch, pool, ctx, opts, depth):
                 blk.append(8024)
             marker = op * 1000 + 255
             wrap = None
-            if opts.marker_under_ops and op != 225 and ch.bool(1, 4):
+            want_wrap = ch.bool(1, 4) if (mixed is None or b >= 2) else (b == mixed)
+            if opts.marker_under_ops and op != 225 and want_wrap:
                 wrap = ch.weighted([(2, (201129, 201000)), (1, (202129, 202000)), (1, (207001, 207000)),
                                     (1, (208002, 208000))])
             if wrap:
@@ -460,6 +467,10 @@ def g_bitmap(ch, pool, ctx, opts, depth):
                 blk += [103000, 31001, wrap[0], marker, wrap[1]]
             else:
                 blk += [101000, 31001, marker]
+            if opts.marker_under_ops and op != 225:
+                if prev_wrapped is not None and prev_wrapped != bool(wrap):
+                    ctx.features.add('marker_blocks_with_and_without_operator')
+                prev_wrapped = bool(wrap)
         _reserve(ctx, len(blk))
         # fields added: operator constant entries are not plain; bits, factors, values are
         ctx.min_plain += 1
